@@ -546,6 +546,13 @@ def r25(ctx: Ctx) -> RuleReport:
                     crossed = bool(guards_true) and want not in guards_true
                     # guarded by its own option, but also switched off by another one: with both options given the documented step is skipped
                     crossed = crossed or (guards_true == {want} and bool(guards_false))
+                    crossed = crossed or want in guards_false                      # runs exactly when its own option is NOT given
+                    try:
+                        reachable = owner_node(cfg, pm, call) in cfg.reachable_from([cfg.entry])
+                    except Exception:
+                        reachable = True
+                    crossed = crossed or not reachable                              # `if False:` - the step can never run
+                    crossed = crossed or (not guards_true and not guards_false and not any(f.startswith(optparam) for f, _ in facts))   # runs whatever the options say
                     rep.add(k, fi.loc(call), 'ok' if good else ('violation' if crossed else 'undecided'),
                             '' if good else f'runs under {sorted(guards_true) or "no option"}'
                                             f'{" and not " + str(sorted(guards_false)) if guards_false else ""}, documented guard is {want}')
